@@ -2747,11 +2747,16 @@ template< size_t L> inline
       // str.length() == 5
       // make space:  goodbyex....farewell
       // copy:        goodbye and farewell
+      // the surplus characters at the end are dropped
+      if (copy_len > L - pos1)
+         copy_len = L - pos1;
+      const size_t  move_len = std::min( mLength - pos1 - count1,
+         L - pos1 - copy_len);
       std::memmove( &mString[ pos1 + copy_len],
          &mString[ pos1 + count1],
-         mLength - pos1 - count1);
+         move_len);
       std::memcpy( &mString[ pos1], &str[ pos2], copy_len);
-      mLength = mLength - count1 + copy_len;
+      mLength = pos1 + copy_len + move_len;
       mString[ mLength] = '\0';
    } else // count1 > copy_len
    {
